@@ -249,8 +249,19 @@ pub fn worker(prop: &dyn Prop, tier: Tier, seed: u64, runs: &[u64], pool: usize,
             line.shrink_steps = steps;
             // verify in a fresh process
             let exe = std::env::current_exe().expect("current_exe");
-            let st = Command::new(exe).arg("replay").arg(&path).arg("--quiet").stdout(Stdio::null()).stderr(Stdio::null()).status();
-            line.replay_verified = Some(matches!(st, Ok(s) if s.code() == Some(1)));
+            let verify = |p: &Path| {
+                let st = Command::new(&exe).arg("replay").arg(p).arg("--quiet").stdout(Stdio::null()).stderr(Stdio::null()).status();
+                matches!(st, Ok(s) if s.code() == Some(1))
+            };
+            let mut ok = verify(&path);
+            if !ok && steps > 0 {
+                // the minimised scenario does not stand on its own: report the scenario as it was found
+                let rf0 = ReplayFile { spec: spec.clone(), trace: report.trace.clone(), fingerprint: v.fingerprint.clone(), detail: v.detail.clone(), trace_hash: report.trace_hash, minimised: false, shrink_steps: 0, ..rf.clone() };
+                let path0 = write_replay(&rf0);
+                line.shrink_steps = 0;
+                ok = verify(&path0);
+            }
+            line.replay_verified = Some(ok);
             report.trace.clear();
         } else {
             report.trace.clear();
@@ -314,7 +325,9 @@ pub fn batch(prop: &'static dyn Prop, tier: Tier, seed: u64) -> BatchResult {
         by_pool.entry(pool).or_default().push(i);
     }
     // chunks
-    let chunk_size = ((n as usize) / (slots * 4)).clamp(1, 40);
+    // One scenario per worker process: a run then starts from exactly the process state a replay
+    // starts from (fresh rayon pool and work-stealing state, no leaked threads, fresh allocator).
+    let chunk_size = std::env::var("VERIF_CHUNK").ok().and_then(|s| s.parse().ok()).unwrap_or(1usize).max(1);
     let mut chunks: Vec<(usize, Vec<u64>)> = Vec::new();
     for (pool, v) in &by_pool {
         for c in v.chunks(chunk_size) {
